@@ -36,7 +36,7 @@ TABLE = {
             "single writer of EngineData.method. This covers every interleaving of concurrent saves because asyncio can "
             "only switch coroutines at the awaits the rule enumerates.",
             "Assumes cooperative asyncio scheduling on one loop (switch points = awaits) and that asyncio.Lock is correct; "
-            "does not decide what the engine does with the method. A critical section handed to asyncio.shield/create_task/ensure_future is not covered by the caller's lock."),
+            "does not decide what the engine does with the method. A critical section handed to asyncio.shield/create_task/ensure_future is not covered by the caller's lock. (R31f) the method version is taken over from the engine together with the lines."),
     "C38": ("string-alphabet injectivity analysis of the id encoder + guard dominance",
             "The return expression of create_engine_id is decomposed into encoded parts and separators and compared "
             "with the output alphabet of urllib.parse.quote; registration side effects and success replies must be "
@@ -98,7 +98,7 @@ TABLE = {
             "route's UserRolesValue and the same id; list endpoints must filter each element; has_access must have the "
             "documented shape. This is a for-all-endpoints statement that a test per endpoint cannot close.",
             "Identity/token validation (jwt) and FastAPI's dependency injection are trusted; the engine-facing routes and "
-            "the pub/sub notification channel are out of scope. The two LSP endpoints violate the rule today (open known findings)."),
+            "the pub/sub notification channel are out of scope. The two LSP endpoints violate the rule today (open known findings). (R32e) a unit whose required roles have not been reported yet is not open."),
     "C26": ("type-level analysis of the annotation closure of all protocol message classes + structural checks of the envelope",
             "Every MessageBase subclass in the three protocol namespaces and every pydantic model reachable through field "
             "annotations (195 fields) is checked for JSON-lossy types (non-string dict keys, bytes, Decimal, Any ...); "
@@ -132,7 +132,7 @@ TABLE = {
             "state; the Block/Scope Time gate table is extracted from tags_impl and every site that leaves Running must emit a "
             "closing signal (confirmed on the extracted run-state machine with faults); Start and the last segment of "
             "Restart must perform the same resets.",
-            "Numeric increments and threshold timing are not decided. Hold and the error pause emit no signal today (open known findings). Also decided (R07d): the emit_* methods the clock gate depends on reach their fan-out loop on every path (delivery is unconditional), which is the call model the machine uses. R07a also reports every write of a run clock other than the per-tick increment and the reset at run start. Bound: union of the coarse scheduler with one request per tick gap and the exact scheduler of execute_commands with two (quick) / three (thorough) requests per gap. (R07e) clock tags clear their pause flag when a run starts."),
+            "Numeric increments and threshold timing are not decided. Hold and the error pause emit no signal today (open known findings). Also decided (R07d): the emit_* methods the clock gate depends on reach their fan-out loop on every path (delivery is unconditional), which is the call model the machine uses. R07a also reports every write of a run clock other than the per-tick increment and the reset at run start. Bound: union of the coarse scheduler with one request per tick gap and the exact scheduler of execute_commands with two (quick) / three (thorough) requests per gap. (R07e) clock tags clear their pause flag when a run starts. (R07e) per-run containers of the clock tags are cleared at run start; (R07b) the clocks also advance while Restarting (known finding)."),
     "C08": ("reachability/ordering on the extracted run-state machine with ghost variables for output tags and hardware + structural pause-site rule",
             "Ghost variables follow whether the output tags hold live or safe values and what was last written to the "
             "hardware; engine start, every completing Stop and every pause state are checked; every pause site must apply the "
@@ -151,7 +151,7 @@ TABLE = {
             "clear_run_id -> _stop_interpreter in dominance order (Restart then, after a yield, set_run_id -> enable -> "
             "emit_on_start); the cancel chain down to _finalize_command is checked link by link; every Tag subclass "
             "overriding on_stop must reach super().on_stop() on all paths (that is what ends simulations).",
-            "Decides the clean-up structure; completeness of the run log at every stop point and UOD callback behaviour are not decided. Also decided (R10d): in _execute_uod_command every path from the acquisition of the instance to a raising exit finalizes it, and _finalize_command marks the request done on every path - Stop can only cancel what is still an executing request. (R10e): cancel_all_commands is called in the generator segment that ends the run, not only before a wait. (R10f) a command's cancellation is recorded whatever its node says; (R10g) Stop finalizes instances without a request; (R10h) the concluded-invocation gate finalizes the command its request started."),
+            "Decides the clean-up structure; completeness of the run log at every stop point and UOD callback behaviour are not decided. Also decided (R10d): in _execute_uod_command every path from the acquisition of the instance to a raising exit finalizes it, and _finalize_command marks the request done on every path - Stop can only cancel what is still an executing request. (R10e): cancel_all_commands is called in the generator segment that ends the run, not only before a wait. (R10f) a command's cancellation is recorded whatever its node says; (R10g) Stop finalizes instances without a request; (R10h) the concluded-invocation gate finalizes the command its request started. (R10i) a request the cancel pass retires without a state has concluded or is executed by another request."),
     "C11": ("lifecycle typestate rules on the CFG of CommandManager._execute_uod_command",
             "Both cancel loops must dominate instance creation and every execute(); creation only without an existing "
             "instance; initialize only when not initialised and before execute; finalize only through guarded sites; from "
@@ -188,7 +188,7 @@ TABLE = {
             "cancellable=forcible=False last, and append the item; the exclusion table equals the property's list; every "
             "visitor pairs node.completed = True with tracking.mark_completed. All are facts over every record history.",
             "Decides these structural clauses; producibility for arbitrary runtime state orders (the raise sites of the "
-            "generator) and monotonicity of the clock itself are not decided. R15f additionally decides one producibility clause: a command request never receives two different conclusive record states (which makes the generator raise for the rest of the run) - violated on the pinned tree, repaired (fixed entry). (R15f) every cancellation finalizes at once, so no cancelled command reaches a second conclusive mark; (R15g) Tracking.mark_* called with a request/command attribute the state to that request's own invocation. (R15h) last_instance_id is the most recently created invocation."),
+            "generator) and monotonicity of the clock itself are not decided. R15f additionally decides one producibility clause: a command request never receives two different conclusive record states (which makes the generator raise for the rest of the run) - violated on the pinned tree, repaired (fixed entry). (R15f) every cancellation finalizes at once, so no cancelled command reaches a second conclusive mark; (R15g) Tracking.mark_* called with a request/command attribute the state to that request's own invocation. (R15h) last_instance_id is the most recently created invocation. (R15j) Cancelled is recorded for a request without a command instance only if its invocation has not concluded."),
     "C34": ("must-precede (sort before use across two cooperating functions), sibling agreement of column iteration, "
             "one-cell-per-entry path count, loop-shape and guard-dominance rules on the sample-and-hold cursor",
             "The row writer's cursor algorithm needs sorted values (established as a side effect of the header writer: "
@@ -278,7 +278,7 @@ TABLE = {
             "unit -> compatible-units relation is reconstructed from the literal special cases and QUANTITY_UNIT_MAP and "
             "checked for symmetry on all 101 derived pairs (are_comparable consults only its first operand); both operands "
             "must be normalised by the same expressions.",
-            "Exactness of Decimal/pint conversion and trichotomy on values are not decided. '%' vs vol%/wt%/mol% is asymmetric today (open known findings). Operands assigned together must be the same expression of their own side's value and unit."),
+            "Exactness of Decimal/pint conversion and trichotomy on values are not decided. '%' vs vol%/wt%/mol% is asymmetric today (open known findings). Operands assigned together must be the same expression of their own side's value and unit. (R21e, known finding) operands of different units are compared as pint Quantities directly, each operator converting differently."),
     "C20": ("two-sided table agreement: published names vs parser tables, regex-language inclusion (search vs match automata) of analyzer-side "
             "and run-time validators, abstract-case path exploration of the unit checks",
             "The analysis side and the run-time side are separate code; each failure kind of the property is reduced to an agreement "
@@ -295,7 +295,7 @@ TABLE = {
             "(a shortest counterexample word is produced); interpolated lists must pass through re.escape; the markers the reader "
             "methods search for must occur in the writer templates; no split on an escapable character after unescape.",
             "Decides the template languages over an abstract alphabet; concrete option/unit strings are represented by one symbol "
-            "each. The categorical template accepts an empty value and leading/doubled '+' today (open known findings). (R22f) parse/validate match their own parameter against the pattern they were constructed with, both untouched, and parse returns that match's groups."),
+            "each. The categorical template accepts an empty value and leading/doubled '+' today (open known findings). (R22f) parse/validate match their own parameter against the pattern they were constructed with, both untouched, and parse returns that match's groups. (R22g) a named group is read up to its own closing parenthesis."),
     "C27": ("single-writer + guard check of sequence numbers, exhaustiveness of the state dispatch over the RecoverState literal, "
             "kill/must-pass-through rules on the buffer",
             "sequence_number has one writer guarded by == -1 on an increasing counter and both send paths call it; _post_async "
